@@ -255,6 +255,24 @@ def one_call(ctx, case, db, ci, c):
         else:
             why = "bed12 given %s raised %s" % ("an id" if c["as"] == "id" else "a Feature", type(raised).__name__)
         return dict(info, why=why, exception=repr(raised))
+    # the same call with constants.always_return_list switched off must give the same line (the switch only changes how
+    # single-item lists are *viewed*; an export is not a view)
+    if ci % 4 == 0:
+        try:
+            constants.always_return_list = False
+            arg2 = t["id"] if c["as"] == "id" else db[t["id"]]
+            line2 = db.bed12(arg2, block_featuretype=c["block"], thick_featuretype=c["thick"], thin_featuretype=c["thin"],
+                             name_field=c["name_field"], color=c["color"])
+        except Exception as ex:
+            line2 = "raised %r" % (ex,)
+        finally:
+            restored = constants.always_return_list is False
+            constants.always_return_list = True
+        ctx.mon("bed12 calls repeated with always_return_list=False")
+        if line2 != line:
+            return dict(info, why="bed12 output depends on constants.always_return_list", with_switch_on=line, with_switch_off=line2)
+        if not restored:
+            return dict(info, why="bed12 left always_return_list changed (switch was off before the call)")
     why, detail = M.judge_bed12(line, exp)
     ctx.mon("bed12 lines compared")
     if exp["thick_present"]:
